@@ -68,6 +68,7 @@ def mk(name, ret=None):
 
 real_bind = socket.socket.bind
 real_chdir = os.chdir
+real_getuid, real_geteuid = os.getuid, os.geteuid
 
 
 def fake_bind(self, addr):
@@ -105,13 +106,21 @@ def run(tls, chroot, setuid, setgid, fault, tmp, fclass=0, start_cwd=None):
     if start_cwd is not None:
         root_ = os.path.join(tmp, "root")
         where = {"root": root_, "below": os.path.join(root_, "pub", "sub"), "sibling": root_ + "-staging",
-                 "sibling-sub": os.path.join(root_ + ".old", "run")}[start_cwd]
+                 "sibling-sub": os.path.join(root_ + ".old", "run"),
+                 # the file system's root (where init scripts and service managers start daemons), and two start-ups that are
+                 # not made by real root: an ordinary user (the stubs stand for a kernel that would refuse) and a set-uid launcher
+                 "slash": "/", "uid-user": root_, "uid-launcher": root_}[start_cwd]
         os.makedirs(where, exist_ok=True)
         real_chdir(where)
+        if start_cwd == "uid-user":
+            os.getuid, os.geteuid = (lambda: 1000), (lambda: 1000)
+        elif start_cwd == "uid-launcher":
+            os.getuid, os.geteuid = (lambda: 1000), (lambda: 0)
     try:
         row = _run(tls, chroot, setuid, setgid, fault, tmp, fclass)
     finally:
         real_chdir(repo)
+        os.getuid, os.geteuid = real_getuid, real_geteuid
     row["start_cwd"] = start_cwd
     return row
 
@@ -198,7 +207,7 @@ def main():
                         r0 = run(tls, chroot, su, sg, None, tmp)
                         rows.append(r0)
                         if chroot and not tls:
-                            for where in ("root", "below", "sibling", "sibling-sub"):
+                            for where in ("root", "below", "sibling", "sibling-sub", "slash", "uid-user", "uid-launcher"):
                                 rows.append(run(tls, chroot, su, sg, None, tmp, start_cwd=where))
                         for k in range(len(CLASSES)):
                             for i in range(len(r0["trace"])):
